@@ -69,10 +69,10 @@ class Mon(L.HprMonitor):
 
 
 class ReadvSpec(Spec):
-    n_validate = 2
 
     def __init__(self, cfg, tier):
         super().__init__(cfg, tier)
+        self.n_validate = 2 if tier == "quick" else 4      # each amaranth.sim replay costs seconds to set up
         self.n = cfg["buffers"]
         self.mon = Mon(self, self.n)
         self.time_budget = 120 if tier == "quick" else 840
